@@ -236,7 +236,7 @@ func explodeNode(node *CandidateNode, context Context) error {
 			// have not been exploded yet (the anchor can live outside the exploded subtree)
 			return explodeNode(node, context)
 		}
-		return nil
+		return fmt.Errorf("cannot explode alias *%v: it was set by name and refers to no node", node.Value)
 	case MappingNode:
 		// //check the map has an alias in it
 		hasAlias := false
